@@ -160,7 +160,10 @@ macro_rules! c15_layout {
     ($name:ident, $font:expr, $unw:expr, [$(($t:expr, $p:expr)),+ $(,)?]) => {
         #[cfg_attr(kani, kani::proof, kani::unwind($unw))]
         pub fn $name() {
-            $( layout_claims($t, $p, &$font); )+
+            // the skeleton is handed over as a slice of a longer literal: with a literal that ENDS in the
+            // delimiter, str::split forms a one-past-the-end pointer of the literal's object, which CBMC
+            // does not constant-fold (the trivial loop `for l in "!\n".split('\n')` alone ran > 45 min)
+            $( layout_claims(&concat!($t, "~")[..$t.len()], &concat!($p, "~")[..$p.len()], &$font); )+
         }
     };
 }
@@ -169,11 +172,12 @@ c15_layout!(c02_c14_c15_q_layout_4x6_a, FONT_4X6, 9, [("!", "!"), ("! \"", "! \"
 c15_layout!(c02_c14_c15_q_layout_4x6_b, FONT_4X6, 9, [("!\n\" ", "!\n\" "), ("!\r\n\"", "!\n\"")]);
 c15_layout!(c02_c14_c15_q_layout_6x10_c, FONT_6X10, 9, [("\n!!", "\n!!"), ("! \r\n\r\n\"", "! \n\n\"")]);
 c15_layout!(c02_c14_c15_q_layout_6x10_d, FONT_6X10, 9, [("", ""), ("!!", "!!")]);
-// skeletons with an empty LAST line did not finish within the quick cap (600 s): thorough tier
+// skeletons with an empty LAST line (text ending in a line break)
+c15_layout!(c02_c14_c15_q_layout_6x10_e, FONT_6X10, 9, [("!!\n", "!!\n"), ("\r\n", "\n")]);
 #[cfg(feature = "thorough")]
-c15_layout!(c02_c14_c15_t_layout_6x10_e, FONT_6X10, 9, [("!\n", "!\n")]);
+c15_layout!(c02_c14_c15_t_layout_6x10_f, FONT_6X10, 9, [("\" !\r\n!\n", "\" !\n!\n")]);
 #[cfg(feature = "thorough")]
-c15_layout!(c02_c14_c15_t_layout_6x10_f, FONT_6X10, 9, [("\r\n", "\n")]);
+c15_layout!(c02_c14_c15_t_layout_4x6_g, FONT_4X6, 9, [("!\"\n\n\n", "!\"\n\n\n"), ("\n", "\n")]);
 
 /// the layout claims (incl. C02: every call area inside Text::bounding_box()) for one built-in font per
 /// distinct metric tuple, on a two-line skeleton
